@@ -454,6 +454,51 @@ def replay_history_source(p):
         shutil.rmtree(d, ignore_errors=True)
 
 
+def job_clone_keeps_estimate(nant, npol):
+    """a template filterbank whose unit-noise deviations were estimated WITH a seed is cloned per antenna and
+    polarisation by the backend: every clone carries that estimate (so nothing asks for an unseeded one later)"""
+    recs = []
+    tag = f"C12:clone-keeps-estimate:{(nant, npol)}"
+    del ENTROPY[:]
+    px = proxy()
+    with volt_patches(proxy=px):
+        fb = PF.PolyphaseFilterbank(num_taps=1, num_branches=2)
+        tmpl = fb.estimate_channelized_stds(factor=3, seed=31)
+        ant = C02.FakeAntenna(npol) if nant == 1 else C02.FakeArray(nant, npol)
+        be = B.RawVoltageBackend(ant, C02.UQ(), fb, C02.UCQ(num_bits=8), start_chan=0, num_chans=1, block_size=2 * nant * 2 * npol, blocks_per_file=2, num_subblocks=1)
+        clones = [be.filterbank[a][p] for a in range(nant) for p in range(npol)]
+        got = [c.channelized_stds for c in clones]
+    missing = [i for i, g in enumerate(got) if g is None]
+    dis = []
+    if not missing:
+        for g in got:
+            dis += [lift(g[0]) * lift(g[0]) != lift(tmpl[0]) * lift(tmpl[0]), lift(g[1]) * lift(g[1]) != lift(tmpl[1]) * lift(tmpl[1])]
+    r, _ = core.check([z3.Or(z3.BoolVal(bool(missing)), *dis)], timeout_ms=60000)
+    recs.append(q(tag, r, missing=missing))
+    if r == 'sat':
+        recs.append(cex('C12:clone-keeps-estimate', f"the backend's per-antenna/polarisation filterbanks do not carry the seeded unit-noise estimate of the template (missing on {missing})", dict(fn='clone_estimate', nant=nant, npol=npol), name=tag))
+    ent = [lift(tmpl[0]) * lift(tmpl[0])]
+    r, _ = depends_on_entropy(ent, [])
+    recs.append(q(tag + ':seeded-estimate-has-no-entropy', r))
+    return recs
+
+
+def replay_clone_estimate(p):
+    from setigen.voltage import backend as bk, polyphase_filterbank as pf, quantization as qz, antenna as an
+    nant, npol = p['nant'], p['npol']
+    fb = pf.PolyphaseFilterbank(num_taps=2, num_branches=8)
+    tmpl = np.array(fb.estimate_channelized_stds(factor=200, seed=7))
+    src = an.Antenna(sample_rate=1024.0, num_pols=npol, seed=1) if nant == 1 else an.MultiAntennaArray(nant, sample_rate=1024.0, num_pols=npol, delays=[0] * nant, seed=1)
+    be = bk.RawVoltageBackend(src, qz.RealQuantizer(), fb, qz.ComplexQuantizer(), start_chan=0, num_chans=2, block_size=4 * nant * 2 * 2 * npol, blocks_per_file=2, num_subblocks=1)
+    bad = []
+    for a in range(nant):
+        for q_ in range(npol):
+            g = be.filterbank[a][q_].channelized_stds
+            if g is None or not np.array_equal(np.array(g), tmpl):
+                bad.append(f"filterbank[{a}][{q_}].channelized_stds = {g!r}")
+    return bool(bad), (f"template estimate {tmpl} (seed 7) not carried by the backend's clones: " + '; '.join(bad[:2])) if bad else 'clones carry the seeded estimate'
+
+
 def job_history_cross(order):
     """array recording then single-antenna recording (or vice versa) in one process vs the second one alone"""
     recs = []
@@ -720,7 +765,7 @@ def replay_seeded(p):
     return (not np.array_equal(outs[0], outs[1])), f"{p['kind']}: two runs with identical seeds differ (max abs diff {np.max(np.abs(outs[0] - outs[1])) if outs[0].shape == outs[1].shape else 'shape'})"
 
 
-REPLAYS = {'history': replay_history, 'history_source': replay_history_source, 'seeded': replay_seeded, 'copy': replay_concrete_job(job_copy), 'cross': replay_concrete_job(job_history_cross), 'distinct': replay_concrete_job(job_distinct)}
+REPLAYS = {'clone_estimate': replay_clone_estimate, 'history': replay_history, 'history_source': replay_history_source, 'seeded': replay_seeded, 'copy': replay_concrete_job(job_copy), 'cross': replay_concrete_job(job_history_cross), 'distinct': replay_concrete_job(job_distinct)}
 
 
 def main():
@@ -752,6 +797,8 @@ def main():
     jobs.append(('job_history', (3, 1, 'explicit', 2)))
     for (delays, fb_, npol, source) in (((0, 3), 1, 1, 'array'), ((2, 0), 2, 2, 'array'), ((0, 0), 1, 1, 'array'), ((0,), 1, 2, 'antenna'), ((0,), 2, 1, 'antenna')):
         jobs.append(('job_history_array', (delays, fb_, npol, source)))
+    for (na_, np_) in ((1, 2), (2, 1)):
+        jobs.append(('job_clone_keeps_estimate', (na_, np_)))
     for order in ('array-then-single', 'single-then-array'):
         jobs.append(('job_history_cross', (order,)))
     jobs.append(('job_copy', ()))
